@@ -33,7 +33,8 @@ GATHER_CLASSES = ["ASTNode", *M.CLASS_NAMES]
 def st_case(ctx: Ctx):
     g = T.TreeGen(leaves=ctx.pick(10, 16), refs=True)
     masks = st.lists(st.tuples(st.integers(0, 2**40), st.integers(0, 2**40)).map(list), min_size=12, max_size=12)
-    gmask = st.lists(st.tuples(st.integers(1, 2 ** len(GATHER_CLASSES) - 1), st.booleans(),
+    # (class mask 0: an explicitly empty tuple of classes selects nothing)
+    gmask = st.lists(st.tuples(st.integers(0, 2 ** len(GATHER_CLASSES) - 1), st.booleans(),
                                st.integers(0, 2**40), st.integers(0, 2**40)).map(list), min_size=3, max_size=3)
     return st.fixed_dictionaries({"tree": g.tree(), "masks": masks, "gather": gmask})
 
@@ -152,10 +153,14 @@ def check_tree(data: dict, lab: Labels) -> None:
         exp_post: list = []
         ref_post(root_e, prune_e, flt_e, exp_post)
         exp_bfs = ref_bfs(root_e, prune_e, flt_e)
+        # the documented parameter order is part of the interface: every other pair is passed by position
+        positional = (pm ^ fm) % 2 == 1
+        lab.tag_if(positional, "predicates-by-position")
         for name, exp, it in (
-            ("dfs", exp_pre, lambda: root.dfs(prune=P_, filter=F_)),
-            ("dfs-bottom-up", exp_post, lambda: root.dfs(prune=P_, filter=F_, bottom_up=True)),
-            ("bfs", exp_bfs, lambda: root.bfs(prune=P_, filter=F_)),
+            ("dfs", exp_pre, (lambda: root.dfs(P_, F_)) if positional else (lambda: root.dfs(prune=P_, filter=F_))),
+            ("dfs-bottom-up", exp_post, (lambda: root.dfs(P_, F_, True)) if positional
+             else (lambda: root.dfs(prune=P_, filter=F_, bottom_up=True))),
+            ("bfs", exp_bfs, (lambda: root.bfs(P_, F_)) if positional else (lambda: root.bfs(filter=F_, prune=P_))),
         ):
             calls_f.clear()
             calls_p.clear()
@@ -197,6 +202,7 @@ def check_tree(data: dict, lab: Labels) -> None:
                 f"classes={names} exact={exact} masks={pm},{fm}: expected {[p[0].uid for p in exp]} "
                 f"got {[uid_of_live.get(id(g), -1) for g in got]}")
         lab.count("gathers")
+        lab.tag_if(not names, "gather-empty-class-tuple")
     # gather by an abstract marker class the node classes are registered with (isinstance, not the MRO)
     exp_m: list = []
     ref_pre(root_e, lambda p: False, lambda p: any(M.is_subclass(p[0].cls, c) for c in M.MARKED), exp_m, [])
